@@ -47,6 +47,7 @@ var c43NotTableHandlers = map[string]string{
 func runC43(w *World, r *Report) {
 	c43TransactionOwner(w, r)
 	c43TransactionDSN(w, r)
+	c43GrantsOfTheCaller(w, r)
 	r.Rule("R-C43-1", "must-pass-through (edge cut): in each table route handler every statement-executing call (Database.Exec/Query/Begin or an in-package helper that reaches one) is unreachable once the edges {Session.Admin true, Authorized(...) true} are removed", 10)
 	r.Rule("R-C43-2", "operation agreement: every Authorized call passes at least one constant permission, and in a route handler that permission matches the route's HTTP method", 10)
 	r.Rule("R-C43-3", "tables.Authorized: with every granted edge removed and at least one operation requested, no consistent path returns a possibly-true result except through {administrator, unrestricted DSN, permissions not configured}; the grant lookup filters on existing columns user, dsn, table", 2)
